@@ -27,7 +27,9 @@ MC_EXTRA = {
 # quick tier extras: small configurations that exercise a mechanism the base configuration has switched off
 MC_QUICK_EXTRA = {
     "C18": [("MC_raft_cq_small.cfg", 600, 8)],      # CheckQuorum on: CheckQuorumLease
-    "C03": [("MC_raft_cq_small.cfg", 600, 8)],
+    "C03": [("MC_raft_cq_small.cfg", 600, 8), ("MC_raft_crash.cfg", 600, 8)],   # votes across a crash
+    "C02": [("MC_raft_crash.cfg", 600, 8)],         # committed entries across a crash (41 494 states)
+    "C07": [("MC_raft_cc_small.cfg", 600, 8)],      # a membership change (remove) in flight (15 004 states)
 }
 
 TIERS = {
